@@ -72,7 +72,7 @@ func (g *c13CbGate) park() {
 	close(g.inside)
 	select {
 	case <-g.resume:
-	case <-time.After(8 * time.Second): // never hold a lock for ever: the watchdogs fire long before
+	case <-time.After(40 * time.Second): // never hold a lock for ever: the watchdogs fire long before
 	}
 }
 
@@ -604,11 +604,11 @@ func (r *c13CbRun) check(rec *c13CbRec, when string) {
 	}
 }
 
-const c13CbWatch = 5 * time.Second
+const c13CbWatch = 20 * time.Second
 
 func (r *c13CbRun) writerQueued(w *c13CbRec) bool {
 	mu := r.se.GetLock()
-	deadline := time.Now().Add(5 * time.Second)
+	deadline := time.Now().Add(20 * time.Second)
 	for time.Now().Before(deadline) {
 		if w.isDone() {
 			return false
